@@ -186,7 +186,9 @@ impl NameReg {
         let cand = chosen.unwrap_or_else(|| {
             let mut i = self.methods.len();
             loop {
-                let c = format!("m{i}x");
+                // must stay inside shape S1 (a word ending in digits): families whose oracle relies
+                // on "wire name == method name" draw from here too
+                let c = format!("m{i}");
                 if self.ok(part, kind, &c) {
                     return c;
                 }
